@@ -6,6 +6,7 @@ pub mod cache;
 pub mod config;
 pub mod delta;
 pub mod hist;
+pub mod hist2;
 pub mod history;
 pub mod jsondelta;
 pub mod ops;
@@ -24,12 +25,14 @@ pub fn all() -> Vec<&'static Check> {
         &hist::C03,
         &hist::C04,
         &hist::C05,
+        &hist2::C06,
         &worlds2::C07,
         &worlds2::C08,
         &worlds2::C09,
         &worlds2::C10,
         &ops::C37,
         &worlds2::C39,
+        &hist2::C40,
         &worlds2::C41,
         &delta::C11,
         &delta::C12,
